@@ -180,6 +180,13 @@ pub fn gen_spec(seed: u64, focus: &str, tier: &str) -> RunSpec {
                     if cfg.plan == "MarkCompact" && *sem == SEM_NONMOVING {
                         *sem = SEM_DEFAULT;
                     }
+                    // KF-MSNM-GEN-NURSERY: nursery GCs sweep the mark-sweep non-moving space.
+                    if cfg!(feature = "var_c")
+                        && matches!(cfg.plan.as_str(), "GenCopy" | "GenImmix")
+                        && *sem == SEM_NONMOVING
+                    {
+                        *sem = SEM_DEFAULT;
+                    }
                     // KF-COMPRESSOR-REFS: references held in immortal / non-moving objects are
                     // not forwarded by the Compressor.
                     if cfg.plan == "Compressor" && matches!(*sem, SEM_IMMORTAL | SEM_NONMOVING) {
